@@ -9,27 +9,88 @@ C01 / C02 development).  `igc scanFree budget` and `pgc lowUse budget` are the s
 number of successful `ctx.Err()` polls before the deadline (`none` = no deadline).  The specification
 treats both as no-ops, so refinement means the GC cycles stutter.
 
-STATUS (milestone 1).  Proved: index GC cycles stutter — `C04_indexGC_stutters`,
-`C04_store_refines_map_partial_igc` (the full refinement statement for every history WITHOUT primary GC
-cycles: index GC cycles and reopens — snapshot and rescan — at arbitrary positions) and
-`C04_reopen_after_igc`.  The full statement, with primary GC cycles, is kept below as a comment.
-
-STATUS (milestone 2).  Proved: a primary GC cycle stutters on every multihash state that satisfies the
-GC invariant `GInv` (Sth/Lemmas/C04G.lean) — `C04_primaryGC_stutters`.  `GInv` is kept by put / remove /
-reads / flush / index GC / reopen (Sth/Lemmas/C04GStep.lean … C04GIgc.lean); the run theorem that
-threads it through whole histories is milestone 3.
+STATUS (milestone 3).  Proved:
+  * `C04_store_refines_map` / `C02_store_refines_map_gc` — the full statement for EVERY history (index
+    GC cycles, primary GC cycles and reopens at arbitrary positions) under one extra explicit, decidable
+    hypothesis `GcCountersOK s ops` on the run: the file counters stay below 2^28 (see below why a bound
+    of this kind cannot be dropped); `C04_store_refines_map_budget` — the same with the bound stated on
+    the calls alone (`GcBudgetOK 0 ops`); `C04_store_refines_map_cid` — CID stores need no extra bound
+    (primary GC does nothing there).
+  * `C04_indexGC_stutters`, `C04_store_refines_map_partial_igc`, `C04_reopen_after_igc` (milestone 1:
+    histories without primary GC cycles need `SizesOK` only).
+  * `C04_primaryGC_stutters` (milestone 2: one primary GC cycle on a state satisfying the GC invariant
+    `GInv`, Sth/Lemmas/C04G.lean), `C04_primaryGC_stutters_reachable`, `C04_gc_cycles_invisible`,
+    `C04_gc_idempotent_on_contents` (milestone 4, multihash stores).
 -/
 import Sth.Lemmas.C04M1
-import Sth.Lemmas.C04M2
+import Sth.Lemmas.C04M4
 
 namespace Sth
 
-/- full statement, not yet proved (primary GC cycles are the open part):
+/- The unrestricted statement
 
 theorem C04_store_refines_map (c : Cfg) (hc : c.Legal) (ops : List SOp)
     (hk : KeysOK c.kind ops) (hs : SizesOK ops) (s : SState) (hi : initS c = some s) :
     (runS s ops).2 = (specRun c.kind c.imm [] ops).2
+
+is proved below with ONE more hypothesis, `GcCountersOK s ops`.  Why `SizesOK` alone is not enough once
+primary GC cycles are in the history: `SizesOK` bounds the number of calls (< 2^30) and of put bytes
+(< 2^31); without relocation that bounds every file number by the number of calls, which is how C01 and
+C02 (and milestone 1 here) get by with `SizesOK`.  Relocation breaks the link between calls and file
+numbers.  With N live records in 1-byte primary files, one cycle with `lowUse = 0` relocates all N
+records into N new files (reapRecords relocates the last two live records of every unvisited closed
+file; the hand-over pass of the next cycle marks the old copies, the files are revisited, found empty
+and unlinked, and the relocated copies — unvisited files again — are relocated once more).  So the
+primary file number grows by N per cycle: 2^20 puts followed by 2^12 cycles satisfy `SizesOK` and push
+the file number past 2^32, where `localizePri` (the real code's uint32 file number) wraps and a Get
+reads the wrong file.  The unrestricted statement is therefore (almost certainly) false in the model
+exactly where the real store breaks too; the history is far too long to evaluate (about 4·10^9 file
+creations), so no `#eval` counterexample is given.  `GcCountersOK s ops` (Sth/Lemmas/C04M3.lean) says
+what is needed, on the reached states: in every state the run passes through, `precFileNum` and
+`ifileNum + |inext|` are below 2^28 (2^28 rather than 2^32 keeps every counter inside a cycle, which
+can triple them, below the 2^30 the C01 lemmas work with).  It is decidable (`decide` evaluates it on
+the example below), and `GcBudgetOK 0 ops` is a sufficient condition on the calls alone (budget: +1
+per call, ×3 per primary GC cycle, below 2^28 before every call).
 -/
+
+/-- C04, the full statement: every history of Put / Get / Has / GetSize / Remove / Flush / iteration /
+    Close+reopen (snapshot or rescan) with index GC cycles and primary GC cycles — complete, or cut
+    short by the time limit at ANY poll, with any `scanFree` / `lowUse` — at arbitrary positions returns
+    exactly what the in-memory map returns (the specification treats GC cycles and reopens as no-ops).
+    `hb` is the explicit bound on the file counters along the run discussed above. -/
+theorem C04_store_refines_map (c : Cfg) (hc : c.Legal) (ops : List SOp)
+    (hk : KeysOK c.kind ops) (hs : SizesOK ops) (s : SState) (hi : initS c = some s)
+    (hb : GcCountersOK s ops) :
+    (runS s ops).2 = (specRun c.kind c.imm [] ops).2 :=
+  store_refines_map_gc c hc ops hk hs s hi hb
+
+/-- the same theorem under C02's name: C02's statement with GC cycles of both kinds among the calls -/
+theorem C02_store_refines_map_gc (c : Cfg) (hc : c.Legal) (ops : List SOp)
+    (hk : KeysOK c.kind ops) (hs : SizesOK ops) (s : SState) (hi : initS c = some s)
+    (hb : GcCountersOK s ops) :
+    (runS s ops).2 = (specRun c.kind c.imm [] ops).2 :=
+  C04_store_refines_map c hc ops hk hs s hi hb
+
+/-- the full statement with the bound on the calls alone: `GcBudgetOK 0 ops` starts a budget at 0, adds
+    one per call, triples it at every primary GC cycle, and asks that it is below 2^28 before every
+    call -/
+theorem C04_store_refines_map_budget (c : Cfg) (hc : c.Legal) (ops : List SOp)
+    (hk : KeysOK c.kind ops) (hs : SizesOK ops) (s : SState) (hi : initS c = some s)
+    (hb : GcBudgetOK 0 ops) :
+    (runS s ops).2 = (specRun c.kind c.imm [] ops).2 :=
+  store_refines_map_gc_budget c hc ops hk hs s hi hb
+
+/-- the budget is a sufficient condition for the bound on the run -/
+theorem C04_countersOK_of_budget (c : Cfg) (hc : c.Legal) (hmh : c.kind = .mh) (ops : List SOp)
+    (hk : KeysOK c.kind ops) (hs : SizesOK ops) (s : SState) (hi : initS c = some s)
+    (hb : GcBudgetOK 0 ops) : GcCountersOK s ops :=
+  gcCountersOK_of_budget c hc hmh ops hk hs s hi hb
+
+/-- CID stores: the unrestricted statement holds as it stands (primary GC is a no-op on them) -/
+theorem C04_store_refines_map_cid (c : Cfg) (hc : c.Legal) (hcid : c.kind = .cid) (ops : List SOp)
+    (hk : KeysOK c.kind ops) (hs : SizesOK ops) (s : SState) (hi : initS c = some s) :
+    (runS s ops).2 = (specRun c.kind c.imm [] ops).2 :=
+  store_refines_map_gc_cid c hc hcid ops hk hs s hi
 
 /-- C04 without primary GC cycles: index GC cycles (complete or cut short at any poll, with or without
     the free-file scan) and Close+reopen (snapshot or rescan) at arbitrary positions among the calls;
@@ -110,6 +171,37 @@ theorem C04_primaryGC_stutters {c : Cfg} {U : List (Bytes × Bytes)} {s : SState
           .got key val) :=
   primaryGC_stutters hU hG hk lowUse budget
 
+/-- On a multihash store, after ANY history, a primary GC cycle changes the answer of no read. -/
+theorem C04_primaryGC_stutters_reachable (c : Cfg) (hc : c.Legal) (hmh : c.kind = .mh)
+    (ops : List SOp) (op : SOp) (lowUse : Nat) (budget : Budget)
+    (hop : (∃ key, op = .get key) ∨ (∃ key, op = .has key) ∨ (∃ key, op = .size key))
+    (hk : KeysOK c.kind (ops ++ [op])) (hs : SizesOK (ops ++ [op])) (s0 : SState)
+    (hi : initS c = some s0) (hb : GcCountersOK s0 (ops ++ [.pgc lowUse budget])) :
+    (stepS (stepS (runS s0 ops).1 (.pgc lowUse budget)).1 op).2 = (stepS (runS s0 ops).1 op).2 :=
+  pgc_stutters_reachable c hc hmh ops op lowUse budget hop hk hs s0 hi hb
+
+/-- On a multihash store, after ANY history, ANY sequence of GC cycles (`isGC`: index and primary, each
+    complete or cut short at any poll) changes the answer of no read: GC is idempotent on the contents,
+    a cycle resumed after an interrupted one loses nothing, and what is reclaimed is never something a
+    read can see. -/
+theorem C04_gc_cycles_invisible (c : Cfg) (hc : c.Legal) (hmh : c.kind = .mh) (ops gcs : List SOp)
+    (op : SOp) (hg : ∀ g ∈ gcs, g.isGC = true)
+    (hop : (∃ key, op = .get key) ∨ (∃ key, op = .has key) ∨ (∃ key, op = .size key))
+    (hk : KeysOK c.kind (ops ++ [op])) (hs : SizesOK (ops ++ [op])) (s0 : SState)
+    (hi : initS c = some s0) (hb : GcCountersOK s0 (ops ++ gcs)) :
+    (stepS (runS (runS s0 ops).1 gcs).1 op).2 = (stepS (runS s0 ops).1 op).2 :=
+  gc_cycles_invisible c hc hmh ops gcs op hg hop hk hs s0 hi hb
+
+/-- GC is idempotent on the contents: after any history, a GC cycle of either kind run twice leaves
+    every read with the same answer as the cycle run once. -/
+theorem C04_gc_idempotent_on_contents (c : Cfg) (hc : c.Legal) (hmh : c.kind = .mh) (ops : List SOp)
+    (g op : SOp) (hg : g.isGC = true)
+    (hop : (∃ key, op = .get key) ∨ (∃ key, op = .has key) ∨ (∃ key, op = .size key))
+    (hk : KeysOK c.kind (ops ++ [op])) (hs : SizesOK (ops ++ [op])) (s0 : SState)
+    (hi : initS c = some s0) (hb : GcCountersOK s0 (ops ++ [g, g])) :
+    (stepS (runS (runS s0 ops).1 [g, g]).1 op).2 = (stepS (runS (runS s0 ops).1 [g]).1 op).2 :=
+  gc_idempotent_on_contents c hc hmh ops g op hg hop hk hs s0 hi hb
+
 /-! Non-vacuity: 1-byte files (every record its own file, so index GC empties, unlinks and advances
     the first file), overwrites and removals that leave stale index records, index GC cycles with and
     without the free-file scan, complete and with the deadline after 0, 1, 2 and 3 polls, reopens by
@@ -136,5 +228,49 @@ example : ∃ s, initS exCfg04 = some s ∧
     ((runS s exOps04a).1.d.ihdr.map IdxHeader.first, (runS s exOps04a).1.m.ifileNum) = (some 3, 4) := by
   refine ⟨_, rfl, ?_⟩
   decide
+
+/-! Non-vacuity of the full statement: 40-byte primary files; overwrites and a removal leave dead
+    records in closed files; the first primary GC cycle (`lowUse = 0`: relocate from every file) hands
+    the freelist over, marks the dead records, truncates the dead tail of file 1 (44 → 30 bytes) and
+    relocates three live records (three pooled records, three old blocks on the in-memory freelist);
+    the next cycle is cut short after 3 polls with the hand-over file still in place; later cycles,
+    between reopens by rescan and by snapshot, free the relocated records' old places, empty and unlink
+    files, and advance the primary header's first file to 4. -/
+
+def exCfg04b : Cfg := { kind := .mh, bits := 8, ifs := 64, pfs := 40, imm := false }
+def exK1 : Bytes := [18, 6, 1, 2, 3, 4, 5, 6]
+def exK2 : Bytes := [18, 6, 1, 2, 3, 4, 5, 7]
+def exK3 : Bytes := [18, 7, 2, 2, 9, 9, 9, 9, 1]
+def exK4 : Bytes := [18, 6, 3, 2, 3, 4, 5, 8]
+def exOps04 : List SOp :=
+  [.put exK1 [7], .put exK2 [1, 2, 3], .put exK3 [4], .flush [], .put exK4 [5, 5],
+   .put exK2 [3, 3, 3, 3], .put exK4 [6, 6], .flush [], .put exK4 [7, 7], .flush [],
+   .pgc 0 none, .get exK1, .get exK2, .get exK3, .igc true none, .flush [], .pgc 0 (some 3),
+   .pgc 0 none, .get exK4, .reopen [] false, .pgc 50 none, .get exK1, .rm exK3, .pgc 0 (some 5),
+   .reopen [] true, .pgc 0 none, .has exK2, .size exK3, .iter []]
+
+example : exCfg04b.Legal := by decide
+example : KeysOK exCfg04b.kind exOps04 ∧ SizesOK exOps04 := by
+  refine ⟨?_, ?_⟩
+  · unfold KeysOK; decide
+  · unfold SizesOK; decide
+
+/-- the extra hypothesis of the full statement holds on this run, and so does the budget on the calls -/
+example : ∃ s, initS exCfg04b = some s ∧ GcCountersOK s exOps04 := ⟨_, rfl, by decide⟩
+example : GcBudgetOK 0 exOps04 := by decide
+
+/-- the first primary GC cycle relocates: three pooled records, three freed blocks, file 1 truncated -/
+example : ∃ s, initS exCfg04b = some s ∧
+    (let m := (runS s (exOps04.take 11)).1.m
+     let d := (runS s (exOps04.take 11)).1.d
+     (m.pnext.length, m.flpool.length, m.precFileNum, d.pfiles.map fun p => (p.1, p.2.length))) =
+      (3, 3, 3, [(0, 42), (1, 30), (2, 14)]) := ⟨_, rfl, by decide⟩
+
+/-- the cycle cut short after 3 polls leaves the hand-over file behind; at the end the first primary
+    file is 4 -/
+example : ∃ s, initS exCfg04b = some s ∧
+    ((runS s (exOps04.take 17)).1.d.freeGc.map List.length,
+      (runS s exOps04).1.d.phdr.map PriHeader.first, (runS s exOps04).1.m.pfileNum) =
+      (some 36, some 4, 4) := ⟨_, rfl, by decide⟩
 
 end Sth
